@@ -358,8 +358,11 @@ class Run:
             "property_id": self.prop, "tier": self.tier, "seed": self.seed, "level": level, "coverage": cov,
             "assumptions": self.assumptions, "wall_s": round(wall, 2), "violations": len(self.violations),
         }
-        os.makedirs(VERIF + "/evidence", exist_ok=True)
-        with open(VERIF + "/evidence/%s.json" % self.prop, "w") as f:
+        # evidence of runs against another checkout (VERIF_REPO, used to test seeded defects) is kept apart:
+        # the committed evidence must describe /repo itself
+        evdir = VERIF + "/evidence" if os.path.realpath(REPO) == "/repo" else BUILD + "/evidence-other"
+        os.makedirs(evdir, exist_ok=True)
+        with open(evdir + "/%s.json" % self.prop, "w") as f:
             json.dump(ev, f, indent=1, ensure_ascii=False)
         for l in self.known_printed:
             print(l)
